@@ -18,7 +18,7 @@ import (
 	"verif/harness/internal/rng"
 )
 
-const settleTimeout = 15 * time.Second
+const settleTimeout = 8 * time.Second
 
 type failure struct {
 	kind, detail string
@@ -183,7 +183,7 @@ func (sc *scen) disconnect(p *rawPeer) {
 
 // ------------------------------------------------------------ rest detection
 
-func (ri *rpcInfo) resolved() bool { return ri.entered || ri.gotErr || ri.served || ri.failed }
+func (ri *rpcInfo) resolved() bool { return ri.entered || ri.gotErr || ri.served }
 
 // atRest (tb.mu held): every peer has either nothing unresolved, or is full and everything
 // sent before its most recently admitted request is resolved (requests are accepted in the
@@ -402,12 +402,15 @@ func (sc *scen) liveHandlers() []*rpcInfo {
 
 // drain releases handlers until nothing is held and nothing is open.
 func (sc *scen) drain(what string) {
-	for i := 0; i < 200; i++ {
+	for i := 0; i < 200 && len(sc.fails) == 0; i++ {
 		rs := sc.liveHandlers()
 		if len(rs) == 0 {
 			break
 		}
 		sc.release(rs, what)
+	}
+	if len(sc.fails) > 0 {
+		return
 	}
 	// every request must by now have been served or (legitimately) dropped
 	tb := sc.tb
@@ -539,7 +542,7 @@ func (sc *scen) closeSyncer(what string) {
 		tb.waitFor(2*time.Second, func() bool {
 			tb.mu.Lock()
 			defer tb.mu.Unlock()
-			return ri.failed || ri.gotErr || ri.served || ri.entered
+			return ri.gotErr || ri.served || ri.entered
 		})
 		tb.mu.Lock()
 		bad := ri.served || ri.entered
